@@ -182,10 +182,13 @@ func init() {
 			if m.Has("type") {
 				_, err = cb.WithType(uint8(m.Int("type")))
 			}
+			if m.Bool("payloadfirst") && m.Has("payload") {
+				cb.WithPayload(m.Bytes("payload"))
+			}
 			if err == nil && m.Has("st") {
 				_, err = cb.WithKeyTypes(m.Int("st"), m.Int("ct"))
 			}
-			if err == nil && m.Has("payload") {
+			if err == nil && m.Has("payload") && !m.Bool("payloadfirst") {
 				cb.WithPayload(m.Bytes("payload"))
 			}
 			var c *certificate.Certificate
